@@ -30,3 +30,14 @@ Definition pv_of_opt (d : option V) : pv := match d with Some v => VTok v | None
 
 (* the E argument of update / update_extend / |= : another OrderedMultiDict is passed as its state *)
 Definition arg_pv (q : pomd) (a : arg) : pv := match a with AOther => VOtherObj q | _ => VArg a end.
+
+(* the parameter defaults the model assumes for callers that omit arguments (get(k) -> None, the
+   _MISSING sentinels, multi=False, sorted(key=None, reverse=False)); compared with the regenerated ones *)
+Definition expected_defaults : list (meth * list ex) :=
+  [(MClearLL, []); (MInsert, []); (MRemove, []); (MRemoveAll, []); (MAdd, []); (MAddList, []);
+   (MGet, [ENone]); (MGetList, [EMissing]); (MClear, []); (MSetDefault, [EMissing]); (MSetItem, []);
+   (MGetItem, []); (MDelItem, []); (MPop, [EMissing]); (MPopAll, [EMissing]); (MPopItem, []);
+   (MPopLast, [EMissing; EMissing]); (MUpdate, []); (MUpdateExtend, []); (MIOr, []);
+   (MIterItems, [EFalse]); (MIterKeys, [EFalse]); (MIterValues, [EFalse]); (MReversed, []);
+   (MKeys, [EFalse]); (MValues, [EFalse]); (MItems, [EFalse]); (MIter, []); (MGetState, []); (MSetState, []);
+   (MCopy, []); (MInverted, []); (MCounts, []); (MSorted, [ENone; EFalse]); (MToDict, [EFalse])].
